@@ -31,18 +31,22 @@ def split_cases(path):
 
 
 def bark(x):
-    x = np.float32(x)
-    return np.float32(np.float32(13.1) * np.arctan(np.float32(.00074) * x, dtype=np.float64)
-                      + np.float32(2.24) * np.arctan(np.float64(x * x * np.float32(1.85e-8)))
-                      + np.float64(np.float32(1e-4) * x))
+    """toBARK of lib/scales.h on a float argument: float products inside, double sum"""
+    f32, f64 = np.float32, np.float64
+    x = f32(x)
+    return (f64(f32(13.1)) * np.arctan(f64(f32(f32(.00074) * x)))
+            + f64(f32(2.24)) * np.arctan(f64(f32(f32(x * x) * f32(1.85e-8))))
+            + f64(f32(f32(1e-4) * x)))
 
 
 def floor0_map(fl, n):
+    f32, f64 = np.float32, np.float64
     rate, ln = fl["rate"], fl["barkmap"]
-    scale = np.float32(np.float32(ln) / bark(np.float32(rate / 2.0)))
+    scale = f32(f64(ln) / bark(f32(f32(rate) / f32(2.0))))
     m = np.zeros(n + 1, dtype=np.int64)
+    half = f32(f32(rate) / f32(2.0))
     for j in range(n):
-        v = int(np.floor(np.float64(bark(np.float32(np.float32(np.float32(rate / 2.0) / np.float32(n)) * np.float32(j))) * scale)))
+        v = int(np.floor(bark(f32(f32(half / f32(n)) * f32(j))) * f64(scale)))
         m[j] = min(v, ln - 1)
     m[n] = -1
     return m
@@ -80,7 +84,7 @@ def floor0_curve(fl, n, ampraw, lsp):
                 q = f32(q * f32(q * f32(f32(2.) + w)))
             with np.errstate(all="ignore"):
                 x = np.float64(amp) / np.sqrt(np.float64(f32(p + q))) - np.float64(ampoffset)
-                cache[k] = f32(np.exp(np.float64(f32(x)) * np.float64(f32(.11512925))))
+                cache[k] = f32(np.exp(x * np.float64(f32(.11512925))))
         curve[i] = cache[k]
     return curve.astype(np.float32)
 
